@@ -9,7 +9,8 @@ SPEC = {
     "rule": "case = one solver instance for a shipped formalization (CSV csv_colno_property on CSV_GRAMMAR and on the header/body "
             "grammar; XML wellformedness & namespace & no-attr-redef on the prefixed grammar; "
             "reST LENGTH_UNDERLINE & DEF_LINK_TARGETS & NO_LINK_TARGET_REDEF & LIST_NUMBERING_CONSECUTIVE; simple TAR "
-            "TAR_CONSTRAINTS) x PRNG seed x cost settings (the test suite's, STD_COST_SETTINGS, perturbed weight vectors) x "
+            "TAR_CONSTRAINTS) x PRNG seed x cost settings (the test suite's, STD_COST_SETTINGS, perturbed weight vectors, free weight "
+            "vectors from {0,1,2,5,10,15,20}^5 with k in {3,4} and 55 solutions) x "
             "instantiation limits; every returned solution is judged by R1 validity and the domain validator (csv module, expat, "
             "docutils + text rules, TAR field slicing with recomputed checksum). distinct = distinct (formalization, solution "
             "string)",
@@ -28,14 +29,23 @@ def cost_computer(name, grammar, rng, variant):
     base = {"xml": (9.5, 0, 6, 0, 13), "rest": (7, 1.5, 2.5, 2, 18), "csv": None, "tar": None}.get(name)
     if variant == "std" or base is None and variant == "suite":
         return None
+    k = 4
     if variant == "suite":
         w = base
+    elif variant == "free":
+        # any weight vector, not only neighbours of the tuned ones (zero coverage penalties let deeply nested documents through)
+        w = tuple(rng.choice([0, 1, 2, 5, 10, 15, 20]) for _ in range(5))
+        if rng.random() < 0.4:
+            w = w[:3] + (0, 0)        # no coverage pressure at all
+        if w[0] == 0 and w[2] == 0:
+            w = (5,) + w[1:]          # neither closing cost nor depth penalty: the search does not converge
+        k = rng.choice([3, 4])
     else:
         b = base or (10, 1, 3, 1, 5)
         w = tuple(max(0, x * rng.choice([0.5, 0.8, 1.0, 1.3, 2.0])) for x in b)
     return GrammarBasedBlackboxCostComputer(
         CostSettings(CostWeightVector(tree_closing_cost=w[0], constraint_cost=w[1], derivation_depth_penalty=w[2], low_k_coverage_penalty=w[3],
-                                      low_global_k_path_coverage_penalty=w[4]), k=4),
+                                      low_global_k_path_coverage_penalty=w[4]), k=k),
         gg.GrammarGraph.from_grammar(grammar), reset_coverage_after_n_round_with_no_coverage=500)
 
 
@@ -60,7 +70,10 @@ def run_one(ctx, name, spec, rng, nsol, budget_s):
     grammar, constraint, validator, kw = spec
     m = G(grammar)
     seed = rng.randrange(10 ** 6)
-    variant = rng.choice(["suite", "suite", "std", "perturbed"])
+    variant = rng.choice(["suite", "suite", "std", "perturbed", "free", "free"])
+    if variant == "free":
+        nsol = max(nsol, 55)
+        ctx.count("solvers_free_cost_vector")
     kw = dict(kw)
     if rng.random() < 0.3:
         kw["max_number_smt_instantiations"] = rng.choice([1, 2, 3])
